@@ -2,25 +2,28 @@ package main
 
 import (
 	"fmt"
-	"os"
-	"sort"
 	"time"
 
 	"verif/harness/props"
+	"verif/harness/univ"
 )
 
 func main() {
-	res := props.C04Profile(os.Args[1], 2000)
-	type kv struct {
-		k string
-		v time.Duration
-	}
-	var l []kv
-	for k, v := range res {
-		l = append(l, kv{k, v})
-	}
-	sort.Slice(l, func(i, j int) bool { return l[i].v > l[j].v })
-	for _, x := range l[:12] {
-		fmt.Printf("%-45s %v per call\n", x.k, x.v/2000)
+	for _, sp := range []*univ.Space{univ.NPMSpace(), univ.MavenSpace(), univ.PyPISpace()} {
+		n := 0
+		univ.Enumerate(sp.Slots, 2, func(p []univ.Pick) {
+			u, ok := sp.Build(p)
+			if !ok || len(p) < 2 || len(u.Vers[0].Reqs) == 0 {
+				return
+			}
+			n++
+			if n%300 != 1 {
+				return
+			}
+			t0 := time.Now()
+			st := props.C05SchedProbe(u, 2)
+			fmt.Printf("%s %s: schedules=%d points=%d maxpoints=%d complete=%v  %v\n", sp.Name, u.Encode()[:0], st.Schedules, st.Points, st.MaxPoints, st.Complete, time.Since(t0))
+		})
+		fmt.Println(sp.Name, "E3 candidate universes dev<=2:", n)
 	}
 }
